@@ -69,12 +69,20 @@ func ParseKern(src []byte) (Kern, int, error) {
 		return Kern{}, 0, fmt.Errorf("unsupported kern table version: %d", major)
 	}
 
-	out := make([]KernSubtable, numTables)
 	var (
 		err    error
 		nbRead int
 		isOT   = major == 0
 	)
+	// each subtable starts with a header of 6 bytes (OT) or 8 bytes (AAT)
+	headerSize := 8
+	if isOT {
+		headerSize = 6
+	}
+	if L := len(src); uint32(L/headerSize) < numTables {
+		return Kern{}, 0, fmt.Errorf("reading Kern: "+"EOF: %d subtables for length %d", numTables, L)
+	}
+	out := make([]KernSubtable, numTables)
 	for i := range out {
 		if L := len(src); L < nbRead {
 			return Kern{}, 0, fmt.Errorf("reading Kern: "+"EOF: expected length: %d, got %d", nbRead, L)
